@@ -92,7 +92,9 @@ pub fn run_program(p: &Arc<Program>) -> Vec<String> {
 
 fn main() {
     // keep panics quiet: every panic is caught and reported as an `E` line
-    std::panic::set_hook(Box::new(|_| {}));
+    // (every panic that STARTS is announced with a `P panic` line: a panic that is later swallowed, or whose
+    // unwinding never completes, is then visible in the log; the comparison with the model ignores `P` lines)
+    std::panic::set_hook(Box::new(|_| record::log("P panic".to_string())));
     std::env::remove_var("SHUTTLE_RANDOM_SEED");
     let args: Vec<String> = std::env::args().collect();
     let cmd = args.get(1).map(|s| s.as_str()).unwrap_or("");
